@@ -196,4 +196,20 @@ def signedDecVal : Bytes → Int
   | 45 :: d => - (decVal d : Int)
   | d => (decVal d : Int)
 
+/-! ### tapes with positions -/
+
+/-- a tape token as the parser produces it: the token plus where its scalar sits in the
+parsed input (`offset`, `len`; meaningless for structural tokens) -/
+structure PTok where
+  tok : Tok
+  offset : Nat
+  len : Nat
+  deriving DecidableEq, Repr
+
+/-- forget the positions -/
+def erasePos (t : List PTok) : List Tok := t.map (·.tok)
+
+/-- `write_tape` on a positioned tape: only the tokens are looked at -/
+def writeTapeP (t : List PTok) (s : State) : Except WErr State := writeTape (erasePos t) s
+
 end Jomini.Writer.Spec
